@@ -67,7 +67,7 @@ package keeper
 //@   modifies store(ctx, "assets"), store(ctx, "delegation")
 //@   nopanic[C04.sa.nopanic]
 //@   ensures[C04.sa.fraction] err == nil ==> !isnil(res_LegacyMinDec_0) && val(res_LegacyMinDec_0) == imin(P18, saWanted(parameter))
-//@   ensures[C04.sa.bounds]   err == nil && saValue() > 0 ==> 0 <= val(res_LegacyMinDec_0) && val(res_LegacyMinDec_0) <= P18
+//@   ensures[C04.sa.bounds,C01.sa.bounds] err == nil && saValue() > 0 ==> 0 <= val(res_LegacyMinDec_0) && val(res_LegacyMinDec_0) <= P18
 
 // Slash: a reported failure leaves no trace, and a slash id is executed at most once.
 // per pending undelegation visited: the reduction computed by SlashFromUndelegation (under contract above) is
